@@ -423,9 +423,14 @@ impl<T: Clone + Eq + Debug + Default> WrappedBlock<T> {
 
                 // Write any remaining whitespace
                 while self.wslen > 0 {
-                    let to_copy = self.wslen.min(self.width);
+                    if self.width == 0 && !self.allow_overflow {
+                        // There's no room for any whitespace at all.
+                        return Err(TooNarrow);
+                    }
+                    // Always make progress, even in a zero-width block.
+                    let to_copy = self.wslen.min(self.width.max(1));
                     self.line.push_ws(to_copy, self.spacetag.as_ref().unwrap());
-                    if to_copy == self.width {
+                    if to_copy >= self.width {
                         self.flush_line();
                     }
                     self.wslen -= to_copy;
@@ -616,9 +621,12 @@ impl<T: Clone + Eq + Debug + Default> WrappedBlock<T> {
                             let mut pos = self.line.len + self.wslen;
                             let mut at_least_one_space = false;
                             while pos % tab_stop != 0 || !at_least_one_space {
-                                if pos >= self.width {
+                                if pos >= self.width && pos > 0 {
                                     self.flush_line();
                                     pos = 0;
+                                } else if pos >= self.width && !self.allow_overflow {
+                                    // A zero-width block has no room for even one space.
+                                    return Err(TooNarrow);
                                 } else {
                                     self.line.push_char(' ', tag);
                                     pos += 1;
